@@ -278,7 +278,15 @@ static json_object *twin_h(json_object *o)
 	default: return NULL;
 	}
 }
-/* change one thing somewhere inside o (o is a container or a mutable scalar); returns 1 if changed */
+/* change one thing somewhere inside o (o is a container or a mutable scalar); returns 1 if changed.
+ * (values carry a running number: a value may be mutated more than once, every mutation must take effect) */
+static int mut_ctr = 1000;
+static json_object *changed_string(void)
+{
+	char b[32];
+	snprintf(b, sizeof b, "changed%d", mut_ctr++);
+	return json_object_new_string(b);
+}
 static int mutate(json_object *o)
 {
 	if (!o)
@@ -298,12 +306,12 @@ static int mutate(json_object *o)
 					if (vh_below(2))
 						json_object_object_del(o, k);
 					else
-						json_object_object_add(o, k, json_object_new_string("changed"));
+						json_object_object_add(o, k, changed_string());
 					return 1;
 				}
 			}
 		}
-		json_object_object_add(o, "added", json_object_new_int(1));
+		json_object_object_add(o, "added", json_object_new_int(mut_ctr++));
 		return 1;
 	}
 	if (t == json_type_array)
@@ -314,7 +322,7 @@ static int mutate(json_object *o)
 			json_object *e = json_object_array_get_idx(o, vh_below((uint32_t)n));
 			if (e && mutate(e))
 				return 1;
-			json_object_array_put_idx(o, vh_below((uint32_t)n), json_object_new_string("changed"));
+			json_object_array_put_idx(o, vh_below((uint32_t)n), changed_string());
 			return 1;
 		}
 		json_object_array_add(o, json_object_new_int(1));
@@ -323,9 +331,10 @@ static int mutate(json_object *o)
 	if (t == json_type_int)
 		return json_object_set_int64(o, json_object_get_int64(o) == 77 ? 78 : 77);
 	if (t == json_type_double)
-		return json_object_set_double(o, 77.5);
+		return json_object_set_double(o, json_object_get_double(o) == 77.5 ? 78.5 : 77.5);
 	if (t == json_type_string)
-		return json_object_set_string(o, "changed-string-longer-than-inline");
+		return json_object_set_string(o, strcmp(json_object_get_string(o), "changed-string-longer-than-inline") ? "changed-string-longer-than-inline"
+		                                                                                                   : "changed again");
 	if (t == json_type_boolean)
 		return json_object_set_boolean(o, !json_object_get_boolean(o));
 	return 0;
